@@ -135,6 +135,8 @@ def check(ctx, case):
             ctx.evaluations += 1
             ctx.digests.add(hash(("grid", case["rows"], case.get("cols", 2), code)) & 0xFFFFFFFFFFFFFFFF)
             run_stream(ctx, notes, None, None, {"kind": "grid1", "rows": case["rows"], "cols": case.get("cols", 2), "code": code})
+            if code % 7919 == 4000:
+                ctx.add_sample({"kind": "grid1", "rows": case["rows"], "cols": case.get("cols", 2), "code": code, "stream": notes})
         return
     if case["kind"] == "grid1":
         ctx.begin(case)
